@@ -138,6 +138,103 @@ def compatOpt : Option Tables → Option Tables → Bool
   | some a, some b => compatTables a b
   | _, _ => true
 
+/-! #### "the localized segments *are* rewritten": the new URL is served by the same route
+
+`switchOk` only says that every segment is kept *or* replaced by its counterpart; a result in which a localized
+segment is simply copied satisfies it.  The strong judgement adds: if the old remaining segments are served by a
+route of the old locale, the new remaining segments are served by the *same* route (same index) of the new locale's
+table.  Since the two tables differ exactly in the localized static segments, this forces them to be rewritten. -/
+
+/-- Is the list of segments `r` served by the route `row`, the way `leptos_router` matches a path against the
+    segments of a route?  A non-empty static segment is the next segment; an empty static segment (a nested route
+    with `path=""`) and a unit `()` consume nothing; a parameter is any one segment; an optional parameter is zero
+    or one segment (either choice may be the one that works); a splat is all the rest (possibly nothing); at the end
+    of the route no segment may be left. -/
+def servesRow : Row → List Str → Bool
+  | [], r => r.isEmpty
+  | .unit :: ps, r => servesRow ps r
+  | .static m :: ps, r =>
+    if m.isEmpty then servesRow ps r
+    else match r with
+      | s :: tl => s == m && servesRow ps tl
+      | [] => false
+  | .param _ :: ps, r =>
+    match r with
+    | _ :: tl => servesRow ps tl
+    | [] => false
+  | .optional _ :: ps, r =>
+    servesRow ps r || match r with
+      | _ :: tl => servesRow ps tl
+      | [] => false
+  | .splat _ :: _, _ => true
+
+/-- The narrower reading of "served" that the router's localisation step recognises — a *known limitation*, made
+    explicit here so that the judgement applied to the implementation is exactly the one that is proved:
+    as `servesRow`, except that
+    (1) the route must be used up together with the segments: once the last segment is consumed nothing of the
+        route may be left, so a route that ends in an empty static segment, a unit, an absent optional parameter or
+        a splat taking nothing is not read (nor is any non-empty route for the empty path);
+    (2) an optional parameter is read as present exactly when the segment is the parameter's own name.
+    `servesRowExact row r` implies `servesRow row r` (`servesRowExact_serves`), not conversely. -/
+def servesRowExact : Row → List Str → Bool
+  | [], r => r.isEmpty
+  | _ :: _, [] => false
+  | .unit :: ps, s :: tl => servesRowExact ps (s :: tl)
+  | .static m :: ps, s :: tl =>
+    if m.isEmpty then servesRowExact ps (s :: tl) else (s == m && servesRowExact ps tl)
+  | .param _ :: ps, _ :: tl => servesRowExact ps tl
+  | .optional m :: ps, s :: tl => if s = m then servesRowExact ps tl else servesRowExact ps (s :: tl)
+  | .splat _ :: _, _ :: _ => true
+
+/-- some route (same index in both tables) serves `r` in the old locale's table and `r'` in the new locale's -/
+def pairServes : Tables → Tables → List Str → List Str → Bool
+  | ra :: tA, rb :: tB, r, r' => (servesRow ra r && servesRow rb r') || pairServes tA tB r r'
+  | _, _, _, _ => false
+
+/-- no route of the old locale serves `r` (in the reading `reads`), or the route that serves `r` serves `r'` in the
+    new locale's table -/
+def sameRouteServesIf (reads : Row → List Str → Bool) (tA tB : Tables) (r r' : List Str) : Bool :=
+  !(tA.any (fun row => reads row r)) || pairServes tA tB r r'
+
+/-- the judgement that is proved of `get_new_path` and applied to the implementation: premise in the reading
+    `servesRowExact`, conclusion in the full reading `servesRow` -/
+def sameRouteServes (tA tB : Tables) (r r' : List Str) : Bool := sameRouteServesIf servesRowExact tA tB r r'
+
+/-- the ideal judgement (premise in the full reading `servesRow`); `get_new_path` does **not** meet it, see
+    `C14_switch_rewrites_localized_full_refuted` -/
+def sameRouteServesFull (tA tB : Tables) (r r' : List Str) : Bool := sameRouteServesIf servesRow tA tB r r'
+
+/-- nothing is demanded when either locale has no route table -/
+def sameRouteServesOpt (reads : Row → List Str → Bool) : Option Tables → Option Tables → List Str → List Str → Bool
+  | some tA, some tB, r, r' => sameRouteServesIf reads tA tB r r'
+  | _, _, _, _ => true
+
+/-- `switchOk` with the final judgement on the remaining segments strengthened by `also` -/
+def switchOkWith (also : List Str → List Str → Bool) (names : List Str) (tA tB : Option Tables)
+    (path search hash base : Str) (new : Nat) (loc : Option Nat) (out : Str) : Bool :=
+  match afterBase path base with
+  | none => true
+  | some rest =>
+    match dropSuffix out (queryAndFragment search hash) with
+    | none => false
+    | some p =>
+      match dropPrefix (segments base ++ localePrefix names new) (segments p) with
+      | none => false
+      | some r' =>
+        onlyLocalizedChanged tA tB (restOf names rest loc) r' && also (restOf names rest loc) r'
+
+/-- **Strong judgement of a switch**: `switchOk`, and — when both locales have a route table — if the old remaining
+    segments are served by a route of the old locale (reading `servesRowExact`), the new remaining segments are served
+    by the same route of the new locale.  A result that copies a localized segment instead of rewriting it fails. -/
+def switchOkStrong (names : List Str) (tA tB : Option Tables) (path search hash base : Str)
+    (new : Nat) (loc : Option Nat) (out : Str) : Bool :=
+  switchOkWith (sameRouteServesOpt servesRowExact tA tB) names tA tB path search hash base new loc out
+
+/-- the ideal strong judgement (premise: served in the full reading `servesRow`) -/
+def switchOkFull (names : List Str) (tA tB : Option Tables) (path search hash base : Str)
+    (new : Nat) (loc : Option Nat) (out : Str) : Bool :=
+  switchOkWith (sameRouteServesOpt servesRow tA tB) names tA tB path search hash base new loc out
+
 /-- a URL in the form the router itself produces: base path, locale prefix (none for the default), segments -/
 def normalPath (base : Str) (pfx r : List Str) : Str :=
   let items := segments base ++ pfx ++ r
